@@ -6,7 +6,7 @@ out=$1
 VERIF=$(cd "$(dirname "$(readlink -f "$0")")/../.." && pwd)
 cd "$VERIF"
 export GOFLAGS="-mod=mod" GOPROXY=off GOSUMDB=off GOTOOLCHAIN=local
-ovdir=$VERIF/build/c15-overlay
+ovdir=$VERIF/build/c15-overlay${VERIF_BUILD_SUFFIX:-}
 base=()
 if [ -n "${VERIF_OVERLAY:-}" ]; then base=(-base "$VERIF_OVERLAY"); fi
 go run ./cmd/genshim engine/timeshim time || exit 1
